@@ -143,9 +143,11 @@ func vhC20GossipMany() {
 		ones[i] = 0xff
 	}
 	for i := 0; i < k; i++ {
+		// concretely increasing distances 16, 32, ... in the first byte: log-distances 253..256 (the
+		// farthest nodes are at the maximum log-distance 256)
 		var id enode.ID
 		copy(id[:], key)
-		id[0] ^= byte(i + 1)
+		id[0] ^= byte(16 * (i + 1))
 		n := vhNodeWithID(0, []uint8{1}, id)
 		vhTableNodes = append(vhTableNodes, n)
 		vmFCSet(p.radiusCache, []byte(n.ID().String()), ones)
